@@ -1,5 +1,5 @@
 (* C06 -- deadlines and retries: bounded, exact, and (not) safe to hit at any moment. *)
-From EC Require Import Base.Prelude Base.Bytes Pdu.Frame Pdu.Slots Pdu.SlotsProofs Pdu.Client
+From EC Require Import Base.Prelude Base.Bytes Pdu.Frame Pdu.Slots Pdu.View Pdu.Hist Pdu.SlotsProofs Pdu.Client
   Pdu.ClientProofs Pdu.Deadline Pdu.DeadlineProofs.
 Local Open Scope N_scope.
 
